@@ -7,7 +7,7 @@ import time
 
 VERIF = os.path.dirname(os.path.dirname(os.path.abspath(__file__)))
 KNOWN_FILE = os.path.join(VERIF, "KNOWN_FINDINGS.txt")
-EVID_DIR = os.path.join(VERIF, "evidence")
+EVID_DIR = os.environ.get("SL_EVIDENCE_DIR") or os.path.join(VERIF, "evidence")
 
 
 class Ob:
